@@ -5,6 +5,8 @@
 From Coq Require Import List Bool.
 Import ListNotations.
 From HyV Require Import Scope.Comprehension Scope.ComprehensionProofs.
+From HyV Require Import Base.Text Scope.SetDecl Scope.Machine Scope.GenLeak.
+Local Open Scope nat_scope.
 
 Section C04.
 Variables var val expr st : Type.
@@ -71,6 +73,33 @@ Proof.
   intros H. apply (H [CIf 0]); reflexivity.
 Qed.
 Print Assumptions C04_native_total_refuted.
+
+(* leak_spec, the ScopeGen part (partial: that the names of the generator function's nonlocal/global statement
+   are exactly what becomes visible outside is Python's semantics, checked by the oracle).
+   (a) iterator(target): recorded assignments and seen nodes named like an iteration or :setv variable are
+       dropped, and later accesses to such names are not recorded;
+   (b) finalize(): in a function, class or module scope the names put into the nonlocal/global statement are
+       the (sorted) set of names of the remaining recorded assignments -- the setx targets. *)
+Theorem C04_leak_iterator_partial : forall st s rest xs,
+  st_err st = None -> st_stack st = s :: rest -> s_kind s = KGen ->
+  match st_stack (iterator st xs) with
+  | s' :: _ =>
+      (forall r, In r (s_assignments s') -> smem (name_of (st_cells st) r) (supdate (s_iterators s) xs) = false)
+      /\ (forall r, In r (s_seen s') -> smem (name_of (st_cells st) r) (supdate (s_iterators s) xs) = false)
+      /\ s_iterators s' = supdate (s_iterators s) xs
+  | [] => False
+  end.
+Proof. exact iterator_drops_iteration_variables. Qed.
+Print Assumptions C04_leak_iterator_partial.
+
+Theorem C04_leak_finalize_partial : forall perm ord st s rest,
+  st_err st = None -> st_stack st = s :: rest -> s_kind s = KGen -> plain_parent rest ->
+  exists out, st_fin (finalize perm ord st) = st_fin st ++ [out]
+    /\ fo_names out = names_of_set perm ord
+         (supdate [] (filter (fun n => negb (smem n (s_nonlocal s))) (map (name_of (st_cells st)) (s_assignments s))))
+    /\ st_cells (finalize perm ord st) = st_cells st.
+Proof. exact finalize_returns_assignment_names. Qed.
+Print Assumptions C04_leak_finalize_partial.
 
 (* a non-trivial clause list on which the hypotheses hold *)
 Example C04_to_gens_example :
